@@ -2140,6 +2140,11 @@ func (ctx Ctx) funcDecl(d *ast.FuncDecl) coq.FuncDecl {
 		if !ok {
 			ctx.unsupported(rcvr, "unexpected function receiver type: %s", ctx.printGo(rcvrTy))
 		}
+		if tn, ok := ctx.info.ObjectOf(ident).(*types.TypeName); ok && tn.IsAlias() {
+			// calls name the method after the aliased type, the definition
+			// would be named after the alias
+			ctx.unsupported(rcvr, "method declared on the type alias %s (declare it on the type itself)", ident.Name)
+		}
 		fd.Name = coq.MethodName(ident.Name, d.Name.Name)
 		fd.Args = append(fd.Args, ctx.field(rcvr))
 	}
